@@ -90,10 +90,10 @@ def clean_dict():
     return d
 
 
-def PEER_OBJ(**extra):
-    """a Peer with symbolic key, mid and one IPv4 address"""
+def PEER_OBJ(_cls="ipv8/peer.py::Peer", **extra):
+    """a Peer (or subclass) with symbolic key, mid and one IPv4 address"""
     f = dict(public_key=OBJ("ipv8/keyvault/public/openssl.py::OpenSSLPK", ec=OBJ("contracts/common.py::RustPublicKeyModel", bin=BYTES)),
              mid=BYTES_N(20), _address=NTUPLE("ipv8/messaging/interfaces/udp/endpoint.py::UDPv4Address", STR, INT),
              _addresses=EXPR("clean_dict()"))
     f.update(extra)
-    return OBJ("ipv8/peer.py::Peer", **f)
+    return OBJ(_cls, **f)
